@@ -69,8 +69,8 @@ func c19Pom(c *engine.C, pfx string) (string, []expDep) {
 		sb.WriteString("<project>\n")
 	}
 	sb.WriteString("  <modelVersion>4.0.0</modelVersion>\n  <groupId>my.app</groupId>\n  <artifactId>app</artifactId>\n")
-	before := engine.PickTag(c, pfx+"before", "nothing", "properties", "dependencyManagement", "build-plugins")
-	after := engine.PickTag(c, pfx+"after", "nothing", "dependencyManagement", "build-plugins", "properties")
+	before := engine.PickTag(c, pfx+"before", "nothing", "properties", "dependencyManagement", "build-plugins", "build-javadoc-links")
+	after := engine.PickTag(c, pfx+"after", "nothing", "dependencyManagement", "build-plugins", "properties", "build-javadoc-links")
 	section := func(kind string) {
 		switch kind {
 		case "properties":
@@ -79,6 +79,9 @@ func c19Pom(c *engine.C, pfx string) (string, []expDep) {
 			sb.WriteString("  <dependencyManagement>\n    <dependencies>\n      <dependency>\n        <groupId>managed.group</groupId>\n        <artifactId>bom</artifactId>\n        <version>1</version>\n        <type>pom</type>\n        <scope>import</scope>\n      </dependency>\n    </dependencies>\n  </dependencyManagement>\n")
 		case "build-plugins":
 			sb.WriteString("  <build>\n    <plugins>\n      <plugin>\n        <groupId>plugin.group</groupId>\n        <artifactId>plug</artifactId>\n        <dependencies>\n          <dependency>\n            <groupId>plugin.dep</groupId>\n            <artifactId>pd</artifactId>\n          </dependency>\n        </dependencies>\n      </plugin>\n    </plugins>\n  </build>\n")
+		case "build-javadoc-links":
+			// element names that an HTML-minded reader treats as void elements (link, param, meta)
+			sb.WriteString("  <build>\n    <plugins>\n      <plugin>\n        <groupId>org.apache.maven.plugins</groupId>\n        <artifactId>maven-javadoc-plugin</artifactId>\n        <configuration>\n          <links>\n            <link>https://docs.example.org/api/</link>\n          </links>\n          <param>-Xdoclint:none</param>\n          <meta>x &amp; y</meta>\n        </configuration>\n      </plugin>\n    </plugins>\n  </build>\n")
 		}
 	}
 	section(before)
